@@ -299,7 +299,9 @@ def merge_identity_rule(chk: Check, rid: str, relpaths: Iterable[str],
             # names that hold a merged node
             merged = set()
             for st in walk_local(fi.node):
-                if isinstance(st, ast.For):
+                # a `for` statement or the generator of a comprehension
+                # (`any(ref is node for (_, ref) in x.merge)`)
+                if isinstance(st, (ast.For, ast.comprehension)):
                     it = st.iter
                     if isinstance(it, ast.Call) and \
                             src(it.func) == "enumerate" and it.args:
@@ -1185,5 +1187,82 @@ def generator_calls_consumed_rule(chk: Check, rid: str,
             else:
                 chk.ok(rid, fi, fi.node, fi.short, "every generator call is "
                        "iterated", False)
+    if n < floor:
+        raise AnalysisError("functions examined: {}".format(n))
+
+
+_MATCH_MAKERS = ("match", "search", "fullmatch")
+_MATCH_USES = ("group", "groups", "groupdict", "start", "end", "span",
+               "expand", "lastindex", "lastgroup", "string", "re", "pos",
+               "endpos", "regs")
+
+
+def match_result_deref_sites(fn: ast.AST):
+    """`<x>.match(...).group(...)` style reads: an attribute of a match
+    object taken directly from the call that may have returned None, and
+    names bound to such a call whose attribute is read with no None /
+    truth test of the name anywhere in the function."""
+    from sa.model import walk_local
+    out = []
+    bound = {}
+    for n in walk_local(fn):
+        if isinstance(n, ast.Attribute) and n.attr in _MATCH_USES and \
+                isinstance(n.value, ast.Call) and \
+                isinstance(n.value.func, ast.Attribute) and \
+                n.value.func.attr in _MATCH_MAKERS:
+            out.append(n)
+        if isinstance(n, ast.Assign) and len(n.targets) == 1 and \
+                isinstance(n.targets[0], ast.Name) and \
+                isinstance(n.value, ast.Call) and \
+                isinstance(n.value.func, ast.Attribute) and \
+                n.value.func.attr in _MATCH_MAKERS and \
+                (src(n.value.func.value) == "re" or
+                 "re.compile" in src(n.value.func.value)):
+            bound[n.targets[0].id] = n
+    for name in bound:
+        tested = False
+        uses = []
+        for n in walk_local(fn):
+            if isinstance(n, (ast.If, ast.While, ast.IfExp, ast.Assert)) and \
+                    any(isinstance(x, ast.Name) and x.id == name
+                        for x in ast.walk(n.test)):
+                tested = True
+            if isinstance(n, ast.BoolOp) and any(
+                    isinstance(x, ast.Name) and x.id == name
+                    for v in n.values[:-1] for x in ast.walk(v)):
+                tested = True
+            if isinstance(n, ast.Attribute) and n.attr in _MATCH_USES and \
+                    isinstance(n.value, ast.Name) and n.value.id == name:
+                uses.append(n)
+        if uses and not tested:
+            out.extend(uses[:1])
+    return out
+
+
+def match_result_deref_rule(chk: Check, rid: str, funcs, floor: int) -> None:
+    """`re.match()` / `.search()` / `.fullmatch()` answer None for text the
+    pattern does not cover (`.` stops at a line feed, `$` before a trailing
+    one, an anchor in the wrong place).  Reading `.group()` off the call
+    itself turns such text into an AttributeError -- a foreign exception
+    for what may be perfectly good input."""
+    chk.rule(rid, "the result of a regex match / search is never "
+             "dereferenced without a None test", floor=floor)
+    pos = ast.parse("def f(t):\n    return re.match('a', t).group(0)\n")
+    if len(match_result_deref_sites(pos.body[0])) != 1:
+        raise AnalysisError("optional-dereference detector lost its "
+                            "positive sample")
+    n = 0
+    for fi in funcs:
+        n += 1
+        bad = match_result_deref_sites(fi.node)
+        if bad:
+            chk.fail(rid, fi, bad[0], "{}: `{}`".format(
+                fi.short, src(bad[0])[:60]),
+                "the match may be None (no pattern covers every text: "
+                "line feeds, anchors), and `.{}` of None is an "
+                "AttributeError".format(bad[0].attr))
+        else:
+            chk.ok(rid, fi, fi.node, fi.short, "no match result is read "
+                   "without a test", False)
     if n < floor:
         raise AnalysisError("functions examined: {}".format(n))
